@@ -594,7 +594,17 @@ func applyHop(regs []*docState, h hop, tmp string) (obs *saveObs, err error) {
 			if h.FmtStr != "" {
 				format = document.ImageFormat(h.FmtStr)
 			}
-			if _, e := s.doc.AddImageFromData(data, h.FName, format, w, ht, cfg); e != nil {
+			if h.FmtStr == "" && h.Atom%5 == 0 {
+				// by way of a file: format and pixel size are read off the bytes (the file name has the caller's extension,
+				// which need not match the format)
+				fn := filepath.Join(tmp, "in_"+filepath.Base(h.FName))
+				if e := os.WriteFile(fn, data, 0644); e != nil {
+					return nil, e
+				}
+				if _, e := s.doc.AddImageFromFile(fn, cfg); e != nil {
+					return nil, e
+				}
+			} else if _, e := s.doc.AddImageFromData(data, h.FName, format, w, ht, cfg); e != nil {
 				if h.FmtStr != "" {
 					return nil, errRefused
 				}
